@@ -450,7 +450,8 @@ MSession == MPersist \/ MExpire \/ MPickle \/ MMerge
 InitMutList == MInit(<<>>)
 NextMutList == (\E op \in POpsList : MApply("list", ApplyList(st.val, op), op)) \/ MSession
 InitMutSet == MInit({})
-NextMutSet == \/ \E op \in SeqSetOps : MApply("set", ApplySet(st.val, op), op)
+\* (the augmented operators of MutableSet accept any iterable; only the set-typed calls are part of the builtin's contract)
+NextMutSet == \/ \E op \in {o \in SeqSetOps : ~(o.n \in {"ior", "isub", "iand", "ixor"} /\ ~IsSetKind(o.kd))} : MApply("set", ApplySet(st.val, op), op)
               \/ \E x \in st.val : MApply("set", Ok(st.val \ {x}, "val", <<x>>, <<>>, <<x>>), Op("pop", 0, x, <<>>, ""))
               \/ MSession
 NextMutDict == (\E op \in SeqDictOps \cup {Op("ior", 0, 0, ps, "dict") : ps \in {p \in PairSeqs : DistinctKeys(p)}}
